@@ -360,7 +360,53 @@ func VOfGo(x any) V {
 		}
 		return out
 	}
+	// struct inputs (and pointers to them) read back as the record they present
+	rv := reflect.ValueOf(x)
+	ptr := false
+	if rv.Kind() == reflect.Pointer && !rv.IsNil() && rv.Elem().Kind() == reflect.Struct {
+		rv, ptr = rv.Elem(), true
+	}
+	if rv.Kind() == reflect.Map && rv.Type().Key().Kind() == reflect.String && rv.Type().Name() == "" {
+		// a typed map (map[string]string, ...) is the same record for the model
+		out := V{K: "o", Typed: true}
+		keys := []string{}
+		for _, k := range rv.MapKeys() {
+			keys = append(keys, k.String())
+		}
+		sort.Strings(keys)
+		for _, k := range keys {
+			out.O = append(out.O, KV{k, VOfGo(rv.MapIndex(reflect.ValueOf(k)).Interface())})
+		}
+		return out
+	}
+	if rv.Kind() == reflect.Struct && rv.Type().Name() == "" {
+		out := V{K: "so", Typed: ptr}
+		for i := 0; i < rv.NumField(); i++ {
+			if rv.Type().Field(i).IsExported() {
+				out.O = append(out.O, KV{rv.Type().Field(i).Name, VOfGo(rv.Field(i).Interface())})
+			}
+		}
+		return out
+	}
 	return V{K: "x", Desc: "unknown"}
+}
+
+// HasPointer: the value contains a pointer (its %v rendering would print an address)
+func (v V) HasPointer() bool {
+	if v.K == "so" && v.Typed {
+		return true
+	}
+	for _, x := range v.L {
+		if x.HasPointer() {
+			return true
+		}
+	}
+	for _, kv := range v.O {
+		if kv.V.HasPointer() {
+			return true
+		}
+	}
+	return false
 }
 
 // AsString: the string rendering a flat source would carry for this leaf
